@@ -100,12 +100,33 @@ def env_delete(path):
     return {"k": "env", "do": "delete", "path": path}
 
 
-def positional(i, method, path, line, ch, extra=None):
+def positional(i, method, path, line, ch, extra=None, rng=None):
+    """rng given: optional members of the request parameters are varied (every value a
+    conforming client may send), otherwise the common defaults are used"""
     p = {"textDocument": {"uri": uri(path)}, "position": {"line": line, "character": ch}}
     if method == "textDocument/references":
         p["context"] = {"includeDeclaration": True}
+        if rng is not None:
+            r = rng.random()
+            if r < 0.35:
+                p["context"] = {"includeDeclaration": False}
+            elif r < 0.45:
+                del p["context"]
     if method == "textDocument/rename":
         p["newName"] = "renamed_x"
+        if rng is not None and rng.random() < 0.4:
+            p["newName"] = rng.choice(["x", "a_very_long_new_name_0123456789", "é", "", "new name", "X9", "i"])
+    if rng is not None:
+        if method == "textDocument/completion" and rng.random() < 0.4:
+            p["context"] = rng.choice([{"triggerKind": 1}, {"triggerKind": 2, "triggerCharacter": "%"},
+                                       {"triggerKind": 3}])
+        if method == "textDocument/signatureHelp" and rng.random() < 0.4:
+            p["context"] = {"triggerKind": rng.choice([1, 2, 3]), "isRetrigger": rng.random() < 0.5,
+                            "triggerCharacter": rng.choice(["(", ","])}
+        if rng.random() < 0.15:
+            p["workDoneToken"] = rng.choice([1, "tok"])
+        if rng.random() < 0.1:
+            p["partialResultToken"] = "p1"
     if method == "textDocument/codeAction":
         p = {"textDocument": {"uri": uri(path)},
              "range": {"start": {"line": line, "character": ch}, "end": {"line": line, "character": ch}},
